@@ -3,7 +3,7 @@ HOOKS = dict(
     guard="coupe_verif",
     enable="cargo feature `coupe_verif` of the coupe crate, switched on by /verif/harness/Cargo.toml (coupe = { path = \"/repo\", features = [\"coupe_verif\"] }); /repo/ffi is built without it",
     baseline_off_cmd="cd /repo && cargo test --workspace --no-fail-fast --offline",
-    source_commits=["a3a7500", "f29fb15"],
+    source_commits=["a3a7500", "f29fb15", "32d018c"],
     add_only=True,
 )
 NOTES = ("Technique: machine-checked proof in Coq 8.16.1 about executable Gallina models, tied to /repo on every run by a translator "
